@@ -10,6 +10,7 @@ CONSTANTS
   MaxRead = 3
   MaxStall = 2
   MaxSweep = 2
+  MaxLeave = 1
 INVARIANTS Quiescent QueueBound WholeUnits
 VIEW GView
 ACTION_CONSTRAINT Emit
